@@ -51,6 +51,17 @@ func c19Roots(w *World) []*ssa.Function {
 			}
 		})
 	}
+	// the modifiers that consume environment content (GetEnv): they run while the program is being declared, on
+	// whatever the environment holds
+	for _, fn := range w.Funcs {
+		if w.PkgOfFn(fn) == nil || fn.Parent() == nil || seen[fn] {
+			continue
+		}
+		if len(callsTo(fn, "os.Getenv"))+len(callsTo(fn, "os.LookupEnv")) > 0 {
+			seen[fn] = true
+			roots = append(roots, fn)
+		}
+	}
 	return roots
 }
 
@@ -978,6 +989,11 @@ func classifySlice(w *World, fn *ssa.Function, x *ssa.Slice, nonEmpty map[*ssa.G
 			if k, ok := constInt(bo.Y); ok {
 				if c, ok := lenOf(bo.X); ok && sameColl(c, x.X) && (minLenAt(b, x.X) >= k || nonNegFact(b, x.High)) {
 					return kind, "G3", fmt.Sprintf("x[:len(x)-%d] under len(x) >= %d", k, k)
+				}
+				if c, ok := lenOf(bo.X); ok && sameColl(c, x.X) && k == 1 {
+					if ne, why := w.provablyNonEmpty(x.X, nil, 0); ne {
+						return kind, "G3", "x[:len(x)-1] of a provably non-empty slice: " + why
+					}
 				}
 			}
 		}
